@@ -6707,7 +6707,8 @@ static CTypeDescrObject *direct_typeoffsetof(CTypeDescrObject *ct,
         }
         res = ct->ct_itemdescr;
         *offset = MUL_WRAPAROUND(index, ct->ct_itemdescr->ct_size);
-        if ((*offset / ct->ct_itemdescr->ct_size) != index) {
+        if (ct->ct_itemdescr->ct_size != 0 &&
+                (*offset / ct->ct_itemdescr->ct_size) != index) {
             PyErr_SetString(PyExc_OverflowError,
                             "array offset would overflow a Py_ssize_t");
             return NULL;
